@@ -10,6 +10,10 @@
 // tracker/peerstore (sync -> verif/shim/vsync) of the cleanup thread against
 // announcer threads that refresh the entry about to be removed / announce into
 // the group being deleted, with an interval-based oracle on every GetPeers.
+// Clock-skew family (skew/...): the time moves while announcements are in
+// flight and every clock read of the store is a scheduling point, so that an
+// announcer can be preempted between reading the clock and writing its entry
+// while time passes, another announcer completes and cleanup runs.
 package main
 
 import (
@@ -58,6 +62,14 @@ func (c *vclock) Now() time.Time {
 	if c.points {
 		vrt.Point("clock.Now")
 	}
+	c.mu.Lock()
+	defer c.mu.Unlock()
+	return c.now
+}
+
+// peek is the harness's own (unscheduled) view of the clock: the oracle's time
+// stamps of a call's start and end must not add scheduling points of their own.
+func (c *vclock) peek() time.Time {
 	c.mu.Lock()
 	defer c.mu.Unlock()
 	return c.now
@@ -417,8 +429,16 @@ func (s step) String() string {
 	return s.kind
 }
 
+// phase: one exploration of a scenario (which operations are scheduling
+// points, preemption bound).
+type phase struct {
+	unlockPts bool
+	bound     int
+}
+
 type scenario struct {
 	name    string
+	phs     []phase // thorough tier: overrides the default phases when set
 	pre     []step
 	threads map[string][]step // thread name -> program; "cleaner" is the single cleanup thread
 	order   []string
@@ -476,7 +496,85 @@ func scenarios(thorough bool) []scenario {
 				"cleaner", []step{ce(), ce(), cg()}, "a0", []step{u(P, 1), g(8), u(Q, 1), g(8)}),
 		)
 	}
-	return sc
+	return append(sc, skewScenarios(thorough)...)
+}
+
+// skewScenarios is the clock-skew family: time passes WHILE an announcement is
+// in flight. Every clock read of the store is a scheduling point; the time
+// advances in two steps (a, b) with a+b > TTL and b < TTL, so that an
+// announcement made between the two steps is fresh at the end while one made
+// before the first step is expired. The family is the product
+//
+//	start state {no group, group with an older entry}
+//	x announcer pair {two peers, the same peer with different fields}
+//	x clock program (a, b)
+//
+// Threads: a0 announces (and looks up); "late" lets the time pass, announces
+// (and looks up), lets the time pass again; the cleanup thread runs both
+// passes. All interleavings within the preemption bound are explored: a0 can
+// be preempted at every lock operation and every clock read, in particular
+// between its clock read and its write, while "late" announces and cleanup
+// runs. The thorough tier adds the free-clock variant (skew4/...): the clock
+// is a fourth thread, so that both announcers are concurrent with both steps.
+func skewScenarios(thorough bool) []scenario {
+	half := ttlUnits / 2
+	ticks := [][2]int{{half, half + 1}}
+	if thorough {
+		ticks = append(ticks, [2]int{half + 1, half}, [2]int{ttlUnits, 1})
+	}
+	type start struct {
+		name string
+		pre  []step
+	}
+	starts := []start{{"no-group", nil}, {"group", []step{u(R, 0)}}}
+	type pair struct {
+		name   string
+		a0, a1 []step
+	}
+	pairs := []pair{
+		{"two-peers", []step{u(P, 0), g(8)}, []step{u(Q, 1), g(8)}},
+		{"same-peer", []step{u(P, 0), g(8)}, []step{u(P, 1), g(8)}},
+	}
+	var out []scenario
+	for i, tk := range ticks {
+		for _, st := range starts {
+			for _, pr := range pairs {
+				late := append(append([]step{adv(tk[0])}, pr.a1...), adv(tk[1]))
+				sc := mk(fmt.Sprintf("skew/%s/%s/adv%d+%d", st.name, pr.name, tk[0], tk[1]), st.pre,
+					"a0", pr.a0, "late", late, "cleaner", []step{ce(), cg()})
+				if i > 0 {
+					// the additional clock programs: 2 preemptions at every lock operation only
+					sc.phs = []phase{{true, 2}}
+				}
+				out = append(out, sc)
+			}
+		}
+	}
+	if thorough {
+		tk := ticks[0]
+		for _, st := range starts {
+			for _, pr := range pairs {
+				sc := mk(fmt.Sprintf("skew4/%s/%s/adv%d+%d", st.name, pr.name, tk[0], tk[1]), st.pre,
+					"a0", pr.a0[:1], "tick", []step{adv(tk[0]), adv(tk[1])}, "a1", pr.a1[:1], "cleaner", []step{ce(), cg()})
+				sc.phs = []phase{{false, 2}}
+				out = append(out, sc)
+			}
+		}
+	}
+	return out
+}
+
+// clockPoints: scenarios in which the time moves concurrently with the store's
+// operations; there every clock read of the store is a scheduling point.
+func (sc scenario) clockPoints() bool {
+	for _, prog := range sc.threads {
+		for _, s := range prog {
+			if s.kind == "adv" {
+				return true
+			}
+		}
+	}
+	return false
 }
 
 type call struct {
@@ -504,14 +602,14 @@ func harness(sc scenario, unlockPts bool) *vrt.Harness {
 		vrand.Decider = zeroDecider
 		vsync.UnlockPoints = unlockPts
 		clk := newClock()
-		_, clk.points = sc.threads["tick"]
+		clk.points = sc.clockPoints()
 		st := peerstore.VerifNewLocalStore(peerstore.LocalConfig{TTL: ttl}, clk)
 		h := hashOf(0)
 		ev := 0
 		var calls []*call
 		var harnessErr string
 		exec := func(th string, s step) {
-			c := &call{th: th, st: s, tStart: clk.Now()}
+			c := &call{th: th, st: s, tStart: clk.peek()}
 			ev++
 			c.start = ev
 			calls = append(calls, c)
@@ -538,7 +636,7 @@ func harness(sc scenario, unlockPts bool) *vrt.Harness {
 			}
 			ev++
 			c.end = ev
-			c.tEnd = clk.Now()
+			c.tEnd = clk.peek()
 			c.done = true
 		}
 		for _, s := range sc.pre {
@@ -567,6 +665,22 @@ func harness(sc scenario, unlockPts bool) *vrt.Harness {
 			for _, c := range calls {
 				if (c.st.kind == "ce" || c.st.kind == "cg") && a.start < c.end && c.start < a.end {
 					overlap = true
+				}
+			}
+		}
+		// skew: the clock moved while an announce was in flight; overtaken: a
+		// later announce (later clock) ran to completion inside it
+		skew, overtaken := false, false
+		for _, a := range calls {
+			if a.st.kind != "u" || a.th == "pre" {
+				continue
+			}
+			if a.tEnd.After(a.tStart) {
+				skew = true
+			}
+			for _, b := range calls {
+				if b.st.kind == "u" && b.th != "pre" && a.start < b.start && b.end < a.end && b.tStart.After(a.tStart) {
+					overtaken = true
 				}
 			}
 		}
@@ -624,7 +738,7 @@ func harness(sc scenario, unlockPts bool) *vrt.Harness {
 				}
 			}
 		}
-		obs := fmt.Sprintf("ovl=%v %s", overlap, strings.Join(reads, " "))
+		obs := fmt.Sprintf("ovl=%v skew=%v ovt=%v %s", overlap, skew, overtaken, strings.Join(reads, " "))
 		sort.Strings(vio)
 		if len(vio) > 0 {
 			return obs, strings.Join(dedup(vio), "\n")
@@ -655,8 +769,10 @@ func main() {
 	vrt.WorkerMain(hs)
 
 	run := evid.New("C27", "model_checking")
-	run.Rule = "E3: every history up to depth d (or to the fixpoint) over {UpdatePeer(h,peer,variant), GetPeers(h,n) under every permutation rand.Perm can draw, advance 1 / TTL-1, cleanupExpiredPeerEntries, cleanupExpiredPeerGroups} executed on a real peerstore.LocalStore with an explicit clock and compared with a latest-announcement model after every step (BFS, deduplicated on model + dumped store state); E1: every interleaving at the lock operations of tracker/peerstore (preemption-bounded DFS) of one cleanup thread against announcer/reader/clock threads. distinct = distinct BFS states + distinct outcome classes (set of peers each lookup returned, whether an announce overlapped a cleanup pass) per scenario."
+	run.Rule = "E3: every history up to depth d (or to the fixpoint) over {UpdatePeer(h,peer,variant), GetPeers(h,n) under every permutation rand.Perm can draw, advance 1 / TTL-1, cleanupExpiredPeerEntries, cleanupExpiredPeerGroups} executed on a real peerstore.LocalStore with an explicit clock and compared with a latest-announcement model after every step (BFS, deduplicated on model + dumped store state); E1: every interleaving at the lock operations of tracker/peerstore (preemption-bounded DFS) of one cleanup thread against announcer/reader/clock threads; in the scenarios whose clock moves concurrently (tick-to-expiry and the clock-skew family {no group, group with an older entry} x {two peers, same peer with other fields} x two-step clock programs (a,b) with b < TTL < a+b) every clock read of the store is a scheduling point too, so an announcer is preempted between its clock read and its write while time passes, a later announcer completes and the cleanup passes run. distinct = distinct BFS states + distinct outcome classes (set of peers each lookup returned, whether an announce overlapped a cleanup pass) per scenario."
 	run.Assume("E1: code between two lock operations of tracker/peerstore is data-race free; schedules are sequentially consistent interleavings at lock operations; the vsync RWMutex has no writer preference")
+	run.Assume("E1 oracle under a moving clock: an announcement counts as made no earlier than the clock value at the start of the UpdatePeer call and a lookup as made no later than the clock value at its end, so only announcements that are fresh under every placement inside the call intervals are demanded")
+	run.Assume("clock-skew family: two time steps (TTL/2, TTL/2+1) in quick, additionally (TTL/2+1, TTL/2) and (TTL, 1) and the free-clock variant (clock as a fourth thread, acquire points, 2 preemptions) in thorough; the second announcer announces between the two steps except in the free-clock variant")
 	run.Assume("one cleanup thread (LocalStore runs both passes from the single cleanupTask goroutine)")
 	run.Assume("small-scope: 1-2 torrents, 2-3 peers, 2 field variants per peer, TTL = 10 clock units, clock advances of 1 and TTL-1 units")
 	run.Assume("behaviour exactly at t+TTL (expiry boundary) and of already expired entries is not decided by the statement: the model lets the store keep or drop them")
@@ -697,21 +813,20 @@ func main() {
 	}
 
 	// ---- E1
-	type phase struct {
-		unlockPts bool
-		bound     int
-	}
 	phases := []phase{{true, 2}}
 	maxDur := 25
 	if run.Thorough() {
 		phases = []phase{{true, 2}, {false, 3}}
 		maxDur = 240
 	}
-	var e1exec, e1overlap int64
+	var e1exec, e1overlap, e1skew, e1overtaken int64
 	for _, sc := range scenarios(run.Thorough()) {
 		phs := phases
 		if run.Thorough() && len(sc.order) <= 2 {
 			phs = append(append([]phase{}, phases...), phase{true, 3})
+		}
+		if run.Thorough() && sc.phs != nil {
+			phs = sc.phs
 		}
 		for _, ph := range phs {
 			sc := sc
@@ -730,13 +845,24 @@ func main() {
 				return "E1 " + sc.name + ": " + m
 			})
 			e1exec += int64(res.Executions)
-			ov := 0
+			ov, sk, ot := 0, 0, 0
 			for k, n := range res.Outcomes {
 				if strings.HasPrefix(k, "ovl=true") {
 					ov += n
 				}
+				if strings.Contains(k, " skew=true ") {
+					sk += n
+				}
+				if strings.Contains(k, " ovt=true ") {
+					ot += n
+				}
 			}
 			e1overlap += int64(ov)
+			e1skew += int64(sk)
+			e1overtaken += int64(ot)
+			if strings.HasPrefix(sc.name, "skew") && ot == 0 {
+				run.Fatal(errors.New("vacuous E1 scenario " + sc.name + ": no execution had an announce overtaken (clock moved, another announce completed) while in flight"))
+			}
 			if ov == 0 {
 				run.Fatal(errors.New("vacuous E1 scenario " + sc.name + ": no execution had an announce overlapping a cleanup pass"))
 			}
@@ -744,5 +870,7 @@ func main() {
 	}
 	run.Set("e1_executions", e1exec)
 	run.Set("e1_executions_with_announce_overlapping_cleanup", e1overlap)
+	run.Set("e1_executions_with_clock_moving_during_an_announce", e1skew)
+	run.Set("e1_executions_with_announce_overtaken_by_a_later_announce", e1overtaken)
 	run.Finish()
 }
